@@ -2,6 +2,7 @@ package props
 
 import (
 	"fmt"
+	"github.com/oneconcern/datamon/pkg/model"
 	"sort"
 	"strings"
 	"time"
@@ -13,6 +14,14 @@ import (
 
 func init() {
 	Register(&Scenario{Prop: "C10", Name: "squash", Strict: true, Quick: 10, Thorough: 10, Run: func(rc *RunCtx) *simkit.Violation { return runC10(rc, false) }})
+	// one transient store error on any call of the squash (listing pages, label and descriptor reads, deletes): a squash
+	// that reports success has kept exactly what it must; one that reports the error is run again
+	// (weak replay: how far the listing goroutines of a squash get after one of them failed is not decided by the tape)
+	Register(&Scenario{Prop: "C10", Name: "squash-store-error", Strict: false, Quick: 3, Thorough: 4, Run: func(rc *RunCtx) *simkit.Violation {
+		c10StoreErr = true
+		defer func() { c10StoreErr = false }()
+		return runC10(rc, false)
+	}})
 	Register(&Scenario{Prop: "C10", Name: "squash-crash-rerun", Strict: true, Quick: 3, Thorough: 4, Run: func(rc *RunCtx) *simkit.Violation { return runC10(rc, true) }})
 }
 
@@ -51,6 +60,8 @@ func leftover(prop string, d *DM, t *simkit.Tape, repo string, leaf uint32, n in
 	w.Probe("leftover")
 	return nil
 }
+
+var c10StoreErr bool
 
 func runC10(rc *RunCtx, crashSquash bool) *simkit.Violation {
 	const prop = "C10"
@@ -188,13 +199,25 @@ func runC10(rc *RunCtx, crashSquash bool) *simkit.Violation {
 	if crashSquash {
 		w.Faults = &simkit.FaultCfg{Plan: []*simkit.Planned{{Client: "squasher", Nth: t.Range(0, 12), Kind: simkit.Kind(int(simkit.FCrashB) + t.Choose(2))}}}
 	}
+	if c10StoreErr {
+		w.Faults = &simkit.FaultCfg{Plan: []*simkit.Planned{{Client: "squasher", Nth: t.Range(0, 40), Any: true, Kind: simkit.FErr}}}
+	}
 	tk := w.Go(sq, "squash", func() (interface{}, error) { return nil, core.RepoSquash(d.Stores(sq), "r1", opts...) })
 	if v := w.Run(); v != nil {
 		v.Property = prop
 		return v
 	}
 	w.Faults = nil
-	if sq.Dead {
+	interrupted := sq.Dead
+	if c10StoreErr && fired(w) {
+		if tk.Err != nil {
+			interrupted = true
+			w.Probe("squash-reported-the-store-error")
+		} else {
+			w.Probe("squash-succeeded-despite-store-error")
+		}
+	}
+	if interrupted {
 		w.Probe("squash-crashed")
 		sq2 := w.Client("squasher2")
 		tk, _ = doOp(prop, w, sq2, "squash-rerun", func() (interface{}, error) { return nil, core.RepoSquash(d.Stores(sq2), "r1", opts...) })
@@ -209,6 +232,36 @@ func runC10(rc *RunCtx, crashSquash bool) *simkit.Violation {
 		return Viol(prop, "op-failed", "RepoSquash", "r1", "fault-free RepoSquash failed: %v", tk.Err)
 	}
 	w.Probe("nontrivial")
+	if c10StoreErr && fired(w) && !interrupted {
+		// the squash met a store error and still reported success. What it leaves of the bundles it removes is not
+		// asserted (it ignores failed deletions on purpose; C10 does not quantify over store errors) - what it must KEEP is:
+		// every bundle to keep is still listed and downloads to its content, with its labels
+		for _, mb := range append([]*mBundle(nil), r.Bundles...) {
+			if !keep[mb.ID] {
+				continue
+			}
+			if d.Meta.Peek("bundles/r1/"+mb.ID+"/bundle.yaml") == nil {
+				return Viol(prop, "kept-bundle-removed", "RepoSquash-store-error", mb.ID, "[squash retain=%d mode=%d, one store error, squash reported success] bundle %s had to be kept and is gone", retainN, mode, mb.ID)
+			}
+			dst := memDisk()
+			_, fn := d.downloadFn(d.Stores(sq), "r1", mb.ID, dst, downloadOpts{concDown: 2})
+			pt, v := doOp(prop, w, w.Client("observer"), "publish "+mb.ID, fn)
+			if v != nil {
+				return v
+			}
+			got, _ := readTree(dst)
+			data, _ := splitMeta(got)
+			if pt.Err != nil || diffTrees(mb.Tree, data) != "" {
+				return Viol(prop, "kept-bundle-removed", "RepoSquash-store-error", mb.ID, "[squash retain=%d mode=%d, one store error, squash reported success] kept bundle %s no longer downloads to its content: %v %s", retainN, mode, mb.ID, pt.Err, diffTrees(mb.Tree, data))
+			}
+		}
+		for n, id := range r.Labels {
+			if keep[id] && d.VMet.Peek(model.GetArchivePathToLabel("r1", n)) == nil {
+				return Viol(prop, "label-of-kept-bundle-removed", "RepoSquash-store-error", n, "[one store error, squash reported success] label %q of kept bundle %s is gone", n, id)
+			}
+		}
+		return nil
+	}
 	if df := diffSnap(before, snapshotExcept(d, "r1")); df != "" {
 		return Viol(prop, "other-repo-touched", "RepoSquash", df, "RepoSquash(r1) %s", df)
 	}
@@ -220,7 +273,13 @@ func runC10(rc *RunCtx, crashSquash bool) *simkit.Violation {
 	for _, id := range ids {
 		if !keep[id] {
 			r.remove(id)
-			if left := d.Meta.KeysWithPrefix("bundles/r1/" + id + "/"); len(left) > 0 {
+			if c10StoreErr && fired(w) {
+				// under a store error squash may leave a file list behind (it ignores failed deletions of file lists on
+				// purpose): that is the leftover of a removed bundle, not a bundle - only the descriptor must be gone
+				if d.Meta.Peek("bundles/r1/"+id+"/bundle.yaml") != nil {
+					return Viol(prop, "squashed-bundle-remains", "RepoSquash", id, "bundle %s is not among those to keep but its descriptor remains", id)
+				}
+			} else if left := d.Meta.KeysWithPrefix("bundles/r1/" + id + "/"); len(left) > 0 {
 				return Viol(prop, "squashed-bundle-remains", "RepoSquash", id, "bundle %s is not among those to keep but %d of its objects remain (first %s)", id, len(left), left[0])
 			}
 		}
@@ -229,7 +288,7 @@ func runC10(rc *RunCtx, crashSquash bool) *simkit.Violation {
 	for n, id := range r.Labels {
 		if !keep[id] {
 			delete(r.Labels, n)
-			if sq.Dead {
+			if interrupted {
 				// C10 does not quantify over a crash of the squash itself: a label the interrupted run did not
 				// get to remove may remain after the re-run (observed: the re-run returns early when no bundle
 				// is left to squash)
